@@ -96,6 +96,7 @@ def install_axioms(reg):
             raise U(f"numpy.{name} of these values", node)
     for f in ("count_nonzero", "nonzero", "logical_and", "logical_or", "remainder", "divmod"):
         opaque(f)
+    install_close_axioms(reg)
 
 
 class MaskFunction(Contract):
@@ -297,7 +298,131 @@ class NumericDivide(Contract):
         raise U(f"{self.func} as a callee", node)
 
 
-CONTRACTS = [NumericDivide("true_divide"), NumericDivide("floor_divide"), MaskFunction("any", 1, ("axis", "out", "keepdims")), MaskFunction("all", 1, ("axis", "out", "keepdims")),
+np_isclose = z3.Function("np_isclose", R, R, R, R, B)     # numpy.isclose(a, b, rtol, atol) on numbers: |a-b| <= atol + rtol*|b| (b is the reference)
+
+
+def _notify(ex, kw, node):
+    hook = getattr(ex, "hooks", {}).get("on_close_call") if isinstance(getattr(ex, "hooks", None), dict) else None
+    if hook:
+        hook(ex, kw, node)
+
+
+def install_close_axioms(reg):
+    prev_allclose = reg.fn.get("numpy.allclose")
+
+    def tol(ex, kw, args, node):
+        rtol = kw.get("rtol", args[2] if len(args) > 2 else None)
+        atol = kw.get("atol", args[3] if len(args) > 3 else None)
+        if not (isinstance(rtol, z3.ArithRef) and isinstance(atol, z3.ArithRef)):
+            return None
+        return rtol, atol
+
+    @reg.axiom("numpy.isclose")
+    def isclose(ex, args, kw, node):
+        t = tol(ex, kw, args, node)
+        if len(args) >= 2 and isinstance(args[0], Arr) and isinstance(args[1], Arr) and t is not None and set(kw) <= {"rtol", "atol", "equal_nan"}:
+            from engine.polymodel import elementwise, _num
+            rtol, atol = t
+            r = elementwise(ex, lambda a, b: np_isclose(_num(a), _num(b), rtol, atol), [args[0], args[1]], "bool", node)
+            _notify(ex, dict(kw), node)
+            return r
+        raise U("numpy.isclose in this form", node)
+
+    @reg.axiom("numpy.allclose")
+    def allclose(ex, args, kw, node):
+        t = tol(ex, kw, args, node)
+        if len(args) >= 2 and isinstance(args[0], Arr) and isinstance(args[1], Arr) and t is not None and set(kw) <= {"rtol", "atol", "equal_nan"}:
+            from engine.polymodel import _num, elemfn
+            rtol, atol = t
+            a, b = args[0], args[1]
+            ex.oblige(f"pre({ex.site('numpy.allclose')}).same_shape", a.shape == b.shape, "precondition", node)
+            _notify(ex, dict(kw), node)
+            return ex.ctx.forall_idx(lambda i: np_isclose(_num(a.elem(i)), _num(b.elem(i)), rtol, atol), a.shape)
+        if prev_allclose is not None:
+            return prev_allclose(ex, args, kw, node)
+        raise U("numpy.allclose in this form", node)
+
+
+class Close(Contract):
+    """isclose / allclose: numpy's closeness test on every coefficient of the aligned operands, `a` against the reference `b`"""
+    properties = ("C11", "C17")
+    assumptions = ("A1; numpy.isclose on numbers is the uninterpreted predicate np_isclose(a, b, rtol, atol): what is proved is which "
+                   "coefficients are compared, in which operand order, with which tolerances",)
+
+    def __init__(self, fname):
+        self.func, self.name = fname, f"numpoly.{fname}"
+        self.relpath = f"numpoly/array_function/{fname}.py"
+
+    def _loops(self):
+        def close_t(ex, t, i):
+            A, Bq = ex.ghost["aligned"]
+            return np_isclose(A.C(t, i), Bq.C(t, i), ex.rtol, ex.atol)
+
+        if self.func == "isclose":
+            def inv(ex, env, k):
+                out = env["out"]
+                if not isinstance(out, Arr) or "aligned" not in ex.ghost:
+                    return [("accumulator", z3.BoolVal(False))]
+                A = ex.ghost["aligned"][0]
+                return [("shape", out.shape == A.shape),
+                        ("close_in_every_term_so_far", ex.ctx.forall_idx(lambda i: out.elem(i) == ex.ctx.forall_range(
+                            0, k, lambda t: close_t(ex, t, i)), A.shape))]
+
+            def havoc(ex, env, k):
+                f = ex.ctx.func("out_h", Idx, B)
+                env["out"] = Arr(ex.ghost["aligned"][0].shape, lambda i: f(i), "bool")
+            return {1: LoopSpec(inv, havoc, modifies=("out", "key"))}
+
+        def inv2(ex, env, k):
+            if "aligned" not in ex.ghost:
+                return [("aligned", z3.BoolVal(False))]
+            A = ex.ghost["aligned"][0]
+            return [("every_term_so_far_is_close_everywhere", ex.ctx.forall_range(0, k, lambda t: ex.ctx.forall_idx(
+                lambda i: close_t(ex, t, i), A.shape)))]
+        return {1: LoopSpec(inv2, lambda ex, env, k: None, modifies=("coeff1", "coeff2"))}
+
+    def cases(self):
+        def make_env(ex):
+            ps = sym_polys(ex, 2)
+            ex.inputs = ps
+            ex.ghost = {}
+            ex.rtol, ex.atol, ex.eqnan = ex.ctx.real("rtol"), ex.ctx.real("atol"), Tok("equal_nan")
+            ex.hooks = {"after_align": lambda ex_, res: ex_.ghost.update(aligned=list(res)),
+                        "on_close_call": lambda ex_, kw, node: ex_.oblige(ex_.site("numpy_close") + ".equal_nan_forwarded",
+                                                                         z3.BoolVal(kw.get("equal_nan") is ex_.eqnan), "post", node)}
+            return {"a": ps[0], "b": ps[1], "rtol": ex.rtol, "atol": ex.atol, "equal_nan": ex.eqnan}
+
+        def check(out):
+            ex, ctx = out.ex, out.ctx
+            ex.oblige(f"raises.nothing[{out.exc}:{out.value}]" if out.kind == "raise" else "raises.nothing", z3.BoolVal(out.kind == "return"), "post")
+            if out.kind != "return" or "aligned" not in ex.ghost:
+                return
+            A, Bq = ex.ghost["aligned"]
+            close = lambda t, i: np_isclose(A.C(t, i), Bq.C(t, i), ex.rtol, ex.atol)
+            r = out.value
+            if self.func == "isclose":
+                ok = isinstance(r, Arr)
+                ex.oblige("post.boolean_array", z3.BoolVal(ok), "post")
+                if not ok:
+                    return
+                ex.oblige("post.shape", r.shape == A.shape, "post")
+                ex.oblige("post.element_close_iff_every_coefficient_close", ctx.forall_idx(lambda i: r.elem(i) == ctx.forall_range(
+                    0, A.N, lambda t: close(t, i)), A.shape), "post", note="a against the reference b (numpy.isclose is not symmetric), term by term")
+            else:
+                ok = isinstance(r, (bool, z3.BoolRef))
+                ex.oblige("post.boolean", z3.BoolVal(ok), "post")
+                if not ok:
+                    return
+                rb = z3.BoolVal(r) if isinstance(r, bool) else r
+                ex.oblige("post.true_iff_every_coefficient_everywhere_close", rb == ctx.forall_range(0, A.N, lambda t: ctx.forall_idx(
+                    lambda i: close(t, i), A.shape)), "post")
+        yield Case("", make_env, check, loops=self._loops())
+
+    def apply(self, ex, args, kw, node):
+        raise U(f"{self.func} as a callee", node)
+
+
+CONTRACTS = [Close("isclose"), Close("allclose"), NumericDivide("true_divide"), NumericDivide("floor_divide"), MaskFunction("any", 1, ("axis", "out", "keepdims")), MaskFunction("all", 1, ("axis", "out", "keepdims")),
              MaskFunction("count_nonzero", 1, ("axis",)), MaskFunction("nonzero", 1, ()),
              MaskFunction("logical_and", 2, ("out", "where")), MaskFunction("logical_or", 2, ("out", "where")),
              BothConstant("remainder"), BothConstant("divmod")]
